@@ -110,6 +110,7 @@ func (b *Box) startClock() {
 }
 
 func (b *Box) Stop() {
+	b.initialize()
 	b.stopClock()
 }
 
